@@ -228,6 +228,8 @@ other("C15", "frames proved: FixedZoomPyramid.disparity_range, prepare_pyramid a
       "coarser disparity dataset untouched; run_multiscale only rebinds the machine's fields and pops its own pyramids ("
       + FRAME_NOTE + "); scale schedule and interval propagation:", trusted=FRAME_TRUSTED)
 other("C16", "img_tools.get_window (ROI window clipped to the image, first/last row and column included) proved for all inputs; "
+      "add_disparity with a [min, max] pair proved for every image size (a (2, rows, cols) variable holding min then max under the "
+      "labels min / max; nothing added for None; the image untouched); "
       "add_no_data (NaN / infinite no-data samples, and only those, become -9999; the recorded nodata value follows) and add_mask "
       "(no mask variable iff there is neither an input mask nor a no-data sample; otherwise a pixel is no-data exactly on the "
       "no-data samples, invalid exactly where the input mask is non-zero and the pixel is not no-data, valid elsewhere) proved over "
